@@ -326,8 +326,9 @@ static void vx_schedule(vx_thr *self)
 			else if (thread_enabled(&g_thr[i])) en[n++] = i;
 		}
 		if (self->state == TS_BLOCKED && self->blk == BLK_IDLE) { idle[ni++] = self->idx; }
-		int at_io = (self_en && self->cur_kind == K_IO);
+		int at_io = (self_en && self->cur_kind == K_IO), quiescent = 0;
 		if (n == 0 && ni > 0) {
+			quiescent = 1;
 			// quiescence: the environment (idle-waiting peers) makes its next move
 			for (int i = 0; i < ni; i++) en[n++] = idle[i];
 			ni = 0;
@@ -355,7 +356,7 @@ static void vx_schedule(vx_thr *self)
 		int ns = (g_focus && g_spurious && !g_io_only && self_en && self->would_block &&
 				(self->cur_kind == K_FUTEX_WAIT || self->cur_kind == K_SEM_WAIT)) ? 1 : 0;
 		int total = n + nd + nf + ns, choice = 0;
-		if (g_focus && total > 1 && (!g_io_only || at_io)) choice = next_choice(total, n, self_en);
+		if (g_focus && total > 1 && (!g_io_only || at_io || quiescent)) choice = next_choice(total, n, self_en);   // which environment thread moves at quiescence is a (free) choice in every mode
 		if (choice >= n + nd + nf) {
 			if (g_trace) fprintf(stderr, "[vx]   choice %d/%d: the wait returns without a wake-up\n", choice, total);
 			self->spurious = 1;
